@@ -313,7 +313,8 @@ func (e *baseCompiledExpr) emitSetter(compiledExpr, bool) {
 }
 
 func (e *baseCompiledExpr) emitRef() {
-	e.c.assert(false, e.offset, "Cannot emit reference for this type of expression")
+	// an expression of this kind cannot be the target of an assignment (e.g. the rest element of '({...'s'} = o)')
+	e.c.throwSyntaxError(e.offset, "Invalid destructuring assignment target")
 }
 
 func (e *baseCompiledExpr) emitDelete(putOnStack bool) {
